@@ -88,19 +88,16 @@ func c17Final(e *mtproto.ErrResponseCode, atReturn string) string {
 	return now
 }
 
-// c17Scribble: the caller writes into the error it was given (its own value)
+// c17Scribble: the caller writes into the error it was given (its own value): every field, values that differ from
+// caller to caller
 func c17Scribble(e *mtproto.ErrResponseCode, i int) {
-	switch i % 5 {
-	case 0:
-		e.Code = -7
-	case 1:
-		e.Message = "SCRIBBLED"
-	case 2:
-		e.Description = "scribbled %d"
-	case 3:
-		e.AdditionalInfo = 777
-	default:
-		e.Code, e.Message, e.Description, e.AdditionalInfo = -7, "SCRIBBLED", "scribbled %d", "scribbled"
+	e.Code = -7 - i
+	e.Message = "SCRIBBLED_" + strconv.Itoa(i)
+	e.Description = "scribbled %d by " + strconv.Itoa(i)
+	if i%2 == 0 {
+		e.AdditionalInfo = 777 + i
+	} else {
+		e.AdditionalInfo = "scribbled"
 	}
 }
 
